@@ -287,5 +287,5 @@ pub fn run(env: &mut Env) {
         })
     });
     env.exhaustive_parts.push(format!("C11: 19 symbols x widths 1..=10 x {} value classes{}", vals.len(), if t { "" } else { " (every 7th in quick)" }));
-    env.run_random::<Format>(if t { 10_000_000 } else { 500_000 });
+    env.run_random::<Format>(if t { 10_000_000 } else { 1_500_000 });
 }
